@@ -2,7 +2,7 @@ import ApolloModel.Proofs.TypedDoc
 import ApolloModel.Proofs.TypedIter
 import ApolloModel.Proofs.TypedValid
 import ApolloModel.Proofs.TypedValid3
-import ApolloModel.Proofs.TypedVars5
+import ApolloModel.Proofs.TypedVars6
 /-
 C18 — Executable documents are typed consistently with the schema.
 
@@ -229,8 +229,9 @@ C17 proves its SOUNDNESS (`operation_variables_in_scope_spec`); here is its COMP
 variable use was met and is declared.  The theorems take as hypothesis the facts that the STRUCTURAL rules and the
 value-shape rules establish for a valid document (`DocOk`: fields, arguments and directives are defined, spreads name
 fragments, type conditions are composite, no fragment is on a spread cycle — proved of valid documents on the
-structural model above: `valid_document_wellformed` — and object literals name only defined input fields, each once,
-at positions of known type: the rules of family "values", which ExecRules does not model). -/
+structural model above: `valid_document_wellformed` — and every literal position the check descends into has a type the
+schema knows, `litOk`; that an object literal names only defined input fields, each once, is reported by the model
+itself since `keyDiags`).  `valid_document_variables_defined_reduced` below needs less. -/
 
 end Apollo.C18
 namespace Apollo.C18
@@ -270,6 +271,33 @@ theorem valid_document_all_fields_variables_defined (s : RSchema) (ast : RAst) (
     (h : typedDiags s ast = []) :
     ∀ o ∈ (build s ast).ops, ∀ n ∈ opFieldVars (build s ast) o, declared o.vars n = true :=
   fun o ho n hn => document_variables_defined s ast hok h o ho n (.inr (opFieldVars_uses _ o n hn))
+
+/-- **The hypothesis reduced.**  What `document_from_ast` itself guarantees (every kept field is defined on the type it
+    is selected on; every kept operation has its root type: `build_inv`) and what `value_of_correct_type` itself reports
+    (an object literal naming an undefined field, or a field twice: `keyDiags`) is no longer assumed.  With the typed
+    rules quiet, every used variable is declared as soon as (`DocOkW`) arguments and directives are defined with literal
+    positions of known type, spreads name fragments, type conditions are composite types and no fragment is on a spread
+    cycle — one structural rule each (UndefinedArgument, UndefinedDirective, UndefinedFragment, InvalidFragmentTarget,
+    RecursiveFragmentDefinition; their model is `Standalone.validate` on the erased document, C17's per-rule theorems).
+    PARTIAL: `DocOkW` is still a hypothesis on the ExecRules document, not derived from `Standalone.validate (erase …) = []`
+    (no simulation between `ExecRules.build` and `Standalone.build ∘ erase` is proved). -/
+theorem valid_document_variables_defined_reduced (s : RSchema) (ast : RAst) (hok : DocOkW s (build s ast))
+    (h : typedDiags s ast = []) :
+    ∀ o ∈ (build s ast).ops, ∀ n, (n ∈ dirsVars o.dirs ∨ UsesSels (build s ast) o.sels n) → declared o.vars n = true :=
+  document_variables_defined s ast (docOk_of_built s ast hok) h
+
+/-- what the build guarantees without any hypothesis -/
+theorem built_fields_defined (s : RSchema) (ast : RAst) :
+    (∀ o ∈ (build s ast).ops, ∃ t, s.root o.ty = some t ∧ FieldsDefined s t o.sels) ∧
+    (∀ f ∈ (build s ast).frags, FieldsDefined s f.tc f.sels) :=
+  ⟨(build_inv s ast).ops, (build_inv s ast).frags⟩
+
+/-- for a schema whose input-object fields all have types the schema knows (`InputClosed`, true of a valid schema), the
+    only fact about a literal that `argsOk` still asks for follows from "the argument is defined and its type is known" -/
+theorem literal_shape_from_closed_schema (s : RSchema) (hc : InputClosed s) (defs : List InDef) (args : List RArg)
+    (h : ∀ a ∈ args, ∃ d, defs.find? (·.name == a.name) = some d ∧ (s.kindForValue d.ty.innerNamedType).isSome) :
+    argsOk s defs args :=
+  argsOk_of_closed s hc defs args h
 
 -- Non-vacuity (kernel-evaluated): `scalar S  type Query { f(x: S): Int }`,
 -- `query($v: Int) { f(x: {a: [$v, $w]}) }`: `$w`, inside a list inside an object given to a custom scalar, is reported
